@@ -21,7 +21,8 @@ func C13(c *core.Ctx) {
 		"YAML decode -> FixMapKeys -> json.Marshal -> json.Unmarshal in dominance order on one map. " +
 		"Structural type comparison (cmputil.Opts) ignores the raw $ref text. " +
 		"B-PARSER: the name whose extension selects the YAML or JSON parser in the file loader is the first result of QualifiedFileName (directly or through parameters at all call sites), i.e. the resolved file that is opened. " +
-		"Decided: these routing/precedence conditions. Not decided: byte equality of outputs, YAML scalar typing, the string-vs-list and true-vs-{} decodings (planned for the abstract interpreter)."
+		"Decided: these routing/precedence conditions. B-TYPEFORM: in TypeList.UnmarshalJSON the list form stores the decoded list itself and the string form the one-element list of the decoded string (nil only for the empty string); in Type.UnmarshalJSON `true` stores the zero Type, which is what `{}` decodes to. " +
+		"Not decided: byte equality of outputs, YAML scalar typing."
 	c.Trust("encoding/json decodes by struct tag", "goccy/go-yaml yields generic maps")
 	a := engb.New(c.Prog)
 	pairs := []engb.LegacyPair{
@@ -48,6 +49,8 @@ func C13(c *core.Ctx) {
 	}
 	// B-PARSER: "YAML chosen by file extension" — of the file that is opened, i.e. after extension resolution and symlinks
 	emit(c, a.ParserChoice())
+	// B-TYPEFORM: "type" as string or one-element list; true and {} as the anything-schema
+	emit(c, a.TypeForms())
 	n, probs, notes := a.SchemaProducers()
 	c.Floor("B-LEGACY:decoder", n, 2, "functions that build a *Schema")
 	if len(probs) == 0 {
